@@ -24,8 +24,13 @@ Proof.
   - unfold write_header. destruct (st_status s); cbn; rewrite E; reflexivity.
 Qed.
 
+Lemma book_set_wrapper s p u : book (set_wrapper s p u) = book s. Proof. reflexivity. Qed.
+
 Lemma book_run_action a s : book (state_of (run_action a s)) = book s.
-Proof. destruct a; cbn; auto using book_write_header, book_write_body. Qed.
+Proof.
+  destruct a; cbn; auto using book_write_header, book_write_body.
+  now rewrite book_write_body, book_write_header.
+Qed.
 
 Lemma book_run_actions l s : book (state_of (run_actions l s)) = book s.
 Proof.
@@ -52,9 +57,9 @@ Proof.
   apply book_bind; [now rewrite book_run_actions, book_upd_log|].
   intros s1 H1. destruct (f_pass f).
   - apply book_bind.
-    + destruct (f_fresh f); rewrite IH, ?book_upd_attrs; exact H1.
+    + destruct (f_fresh f), (f_wrap f); rewrite IH, ?book_set_wrapper, ?book_upd_attrs; exact H1.
     + intros s2 H2. apply book_bind.
-      * destruct (f_fresh f); now rewrite book_run_actions, ?book_upd_attrs.
+      * destruct (f_fresh f), (f_wrap f); now rewrite book_run_actions, ?book_set_wrapper, ?book_upd_attrs.
       * intros s3 H3. cbn. exact H3.
   - apply book_bind; [now rewrite book_run_actions|]. intros s3 H3. cbn. exact H3.
 Qed.
@@ -182,12 +187,19 @@ Proof. reflexivity. Qed.
 Lemma slog_run_action a s :
   action_is_panic a = false -> exists s', run_action a s = Done s' /\ slog s' = slog s.
 Proof.
-  destruct a; cbn; intros H; try discriminate; eexists; (split; [reflexivity|]); unfold slog; try reflexivity.
-  - unfold write_header. destruct (st_status s); reflexivity.
-  - unfold write_body. destruct (st_comp s) as [[[c ch] [|]]|]; cbn; unfold write_header; destruct (st_status s); reflexivity.
+  assert (Hwh : forall s0 n, st_log (write_header s0 n) = st_log s0)
+    by (intros s0 n; unfold write_header; destruct (st_status s0); reflexivity).
+  assert (Hwb : forall s0 b, st_log (write_body s0 b) = st_log s0).
+  { intros s0 b. unfold write_body. destruct (st_comp s0) as [[[c ch] [|]]|]; cbn; unfold write_header;
+      destruct (st_status s0); reflexivity. }
+  destruct a as [k v|n|b|k v|k|m|k|b|c p]; cbn; intros H; try discriminate; eexists; (split; [reflexivity|]);
+    unfold slog; try reflexivity.
+  - now rewrite Hwh.
+  - now rewrite Hwb.
   - cbn [upd_log st_log]. rewrite filter_app.
     replace (filter structural_event [L "see:" ++ k ++ L "=" ++ attr_get k (st_attrs s)]) with (@nil str) by reflexivity.
     now rewrite app_nil_r.
+  - now rewrite Hwb, Hwh.
 Qed.
 
 Lemma slog_run_actions l s :
@@ -223,14 +235,18 @@ Proof.
       [unfold panic_free; now rewrite Hpre|].
     rewrite E1. cbn [bind]. rewrite slog_upd_log_structural in L1 by apply pre_structural.
     destruct (f_pass f).
-    + destruct (IH Hrest (if f_fresh f then upd_attrs s1 [] else s1)) as (s2 & E2 & L2).
+    + set (s1' := if f_fresh f then upd_attrs s1 [] else s1).
+      set (s1'' := if f_wrap f then set_wrapper s1' true (S (st_upper s1')) else s1').
+      destruct (IH Hrest s1'') as (s2 & E2 & L2).
       rewrite E2. cbn [bind].
-      destruct (slog_run_actions (f_post f) (if f_fresh f then upd_attrs s2 (st_attrs s1) else s2)) as (s3 & E3 & L3);
+      set (s2' := if f_fresh f then upd_attrs s2 (st_attrs s1) else s2).
+      set (s2'' := if f_wrap f then set_wrapper s2' (st_pretty s1) (st_upper s1) else s2').
+      destruct (slog_run_actions (f_post f) s2'') as (s3 & E3 & L3);
         [unfold panic_free; now rewrite Hpost|].
       rewrite E3. cbn [bind]. eexists. split; [reflexivity|].
       rewrite slog_upd_log_structural by apply post_structural. rewrite L3.
-      replace (slog (if f_fresh f then upd_attrs s2 (st_attrs s1) else s2)) with (slog s2) by (destruct (f_fresh f); reflexivity).
-      rewrite L2. replace (slog (if f_fresh f then upd_attrs s1 [] else s1)) with (slog s1) by (destruct (f_fresh f); reflexivity).
+      replace (slog s2'') with (slog s2) by (subst s2'' s2'; destruct (f_fresh f), (f_wrap f); reflexivity).
+      rewrite L2. replace (slog s1'') with (slog s1) by (subst s1'' s1'; destruct (f_fresh f), (f_wrap f); reflexivity).
       rewrite L1. cbn. now rewrite <- !app_assoc.
     + destruct (slog_run_actions (f_post f) s1) as (s3 & E3 & L3); [unfold panic_free; now rewrite Hpost|].
       rewrite E3. cbn [bind]. eexists. split; [reflexivity|].
